@@ -1,6 +1,6 @@
 (* C09 (reader half): arbitrary bytes given to the GPMF reader give a tree or an error. *)
 From Coq Require Import String List ZArith NArith Bool.
-From TT Require Import Base.Outcome Gpmf.Klv Proofs.C09_proofs.
+From TT Require Import Base.Outcome Gpmf.Klv Proofs.NoCrash Proofs.C09_proofs.
 Import ListNotations.
 
 (* For every byte string the reader model returns Ok or Err: no Go panic site is reachable
